@@ -160,6 +160,11 @@ func (g *gen) stringBody() string {
 	words := []string{"type", "title", "here", "demo", "v1", "user login", "api", "desc", "hello world", "x"}
 	switch n {
 	case 0:
+		if g.r.Chance(0.4) {
+			// whitespace-only content: a value, not a zero string (must survive formatting)
+			g.f("str-blank-only")
+			return kit.Choose(g.r, []string{" ", "  ", "   "})
+		}
 		return kit.Choose(g.r, []string{"x", "v1", "a"})
 	case 1:
 		return kit.Choose(g.r, words)
@@ -344,6 +349,10 @@ func (g *gen) importPath() string {
 		g.p.degenerate = true
 		g.f("zero-string")
 		return `""`
+	}
+	if g.r.Chance(0.03) {
+		g.f("import-blank-only")
+		return kit.Choose(g.r, []string{`" "`, `"  "`})
 	}
 	s := g.lowerIdent()
 	if g.r.Chance(0.3) {
